@@ -288,6 +288,10 @@ class SchemaBuilder(
     ) -> Sequence[Property]:
         raise NotImplementedError
 
+    @staticmethod
+    def _can_be_required(properties: Mapping[str, Property], name: str) -> bool:
+        return name in properties
+
     def object(self, tp: AnyType, fields: Sequence[ObjectField]) -> JsonSchema:
         cls = get_origin_or_type(tp)
         properties = sort_by_order(
@@ -322,10 +326,11 @@ class SchemaBuilder(
         properties_by_name = {p.name: p for p in properties}
         # fields can be absent of the schema (skipped, init=False/InitVar fields)
         dependent_required = {
-            f: [req for req in reqs if req in properties_by_name]
+            f: [req for req in reqs if self._can_be_required(properties_by_name, req)]
             for f, reqs in get_dependent_required(cls).items()
             if f in properties_by_name
         }
+        dependent_required = {f: reqs for f, reqs in dependent_required.items() if reqs}
         result = []
         if discriminator_parent := get_discriminated_parent(cls):
             discriminator_ref = self.ref_schema(
@@ -503,6 +508,11 @@ class SerializationSchemaBuilder(
     SerializationObjectVisitor[JsonSchema],
 ):
     RefsExtractor = SerializationRefsExtractor
+
+    @staticmethod
+    def _can_be_required(properties: Mapping[str, Property], name: str) -> bool:
+        # a property which can be skipped by serialization cannot be required by another
+        return name in properties and properties[name].required
 
     @staticmethod
     def _field_required(field: ObjectField):
